@@ -19,7 +19,7 @@ SHARD_TIMEOUT = {"quick": 900, "thorough": 3600}
 
 
 def shards(tier, seed):
-    return [{"shard": i, "tier": tier, "seed": seed} for i in range(NSHARD)]
+    return [{"shard": i, "tier": tier, "seed": seed} for i in range(NSHARD)] + [{"lane": "real-sockets", "tier": tier, "seed": seed}]
 
 
 class Stub:
@@ -289,8 +289,29 @@ def socket_lane(lane, rng, nstreams):
         rp.ConnectedRemotePeer.handle_message_received = orig
 
 
+def real_socket_lane():
+    """auxiliary: the repository's own two integration tests (real TCP on loopback, real threads) with a per-connection
+    receive-order monitor attached"""
+    from skv import realsock
+    rep = realsock.run_network_tests()
+    res = {"evaluations": 0, "distinct": 0, "violations": [], "counters": {"real_socket_lane_runs": 0}, "samples": []}
+    if rep is None:
+        res["counters"]["real_socket_lane_not_run_cleanly"] = 1
+        return res
+    res["counters"].update({"real_socket_lane_runs": 1, "real_socket_messages": rep["messages"],
+                            "real_socket_connections": rep["connections"], "real_socket_recv_calls": rep["recv_calls"],
+                            "real_socket_recv_sizes": rep["recv_sizes"]})
+    res["evaluations"] = rep["messages"]
+    for v in rep["order_violations"][:3]:
+        res["violations"].append({"key": "real-socket-lane:message-ids-not-consecutive", "msg": v, "witness": {"lane": "real-sockets"}})
+    res["samples"].append({"lane": "real-sockets", "messages": rep["messages"], "connections": rep["connections"]})
+    return res
+
+
 def run_shard(spec):
     env.boot(fake_scrypt=False, horizon_off=False)
+    if spec.get("lane") == "real-sockets" or ("replay" in spec and spec["replay"].get("lane") == "real-sockets"):
+        return real_socket_lane()
     lane = Lane(spec)
     g = objgen.Gen()
     if "replay" in spec:
